@@ -86,6 +86,9 @@ Section Eqs.
   Lemma ht_var f n p v :
     ht (S f) (TVar n p) v = match env_var E n with Some t' => ht f t' v | None => Some (raw_member n v) end.
   Proof. reflexivity. Qed.
+  Lemma ht_ns3 f a b c v :
+    ht (S f) (TNs3 a b c) v = match env_ns3 E a b c with Some t' => ht f t' v | None => None end.
+  Proof. reflexivity. Qed.
   Lemma ht_strlit f x v : ht (S f) (TStrLit x) v = Some (match v with VStr y => str_eqb x y | _ => false end).
   Proof. reflexivity. Qed.
   Lemma ht_raw f r v : ht (S f) (TRaw r) v = Some (raw_member r v).
